@@ -103,10 +103,11 @@ def reference_bytes(cfg, inst, twin, nrows):
     return blocks
 
 
-def run_config(beh, seed, workdir, check_bytes=True):
+def run_config(beh, seed, workdir, check_bytes=True, return_bytes=False, seed_shift=0):
     """Execute one emitted configuration (NRec recordings).  Returns list of Div."""
     cfg = beh["cfg"]
     inst = derive(cfg, seed)
+    inst["seed"] += seed_shift
     divs = []
     src, ants = make_source(cfg, inst)
     twin, _ = make_source(cfg, inst)
@@ -119,7 +120,8 @@ def run_config(beh, seed, workdir, check_bytes=True):
         return orig(n)
     src.get_samples = wrapped
     user_dict = {"MYCARD": "abc", "OBSERVER": "tester"}
-    clock0 = 0.0
+    first_cards = {}
+    all_bytes = []
     try:
         for r, summ in enumerate(beh["recs"]):
             del reqlog[:]
@@ -166,6 +168,7 @@ def run_config(beh, seed, workdir, check_bytes=True):
             ref = reference_bytes(cfg, inst, twin, nrows) if check_bytes else None
             k = 0
             for i, fn in enumerate(want_names):
+                all_bytes.append(open(os.path.join(workdir, fn), "rb").read())
                 try:
                     blocks = guppi.parse_file(os.path.join(workdir, fn))
                 except guppi.FramingError as e:
@@ -183,6 +186,13 @@ def run_config(beh, seed, workdir, check_bytes=True):
                         raise Div("C04|C20", "scanlen", cfg["blocks"] * tpb, scan, r)
                     if h.get("MYCARD", "abc") != "abc" or (cfg["dict"] != "default" and h.get("MYCARD") != "abc"):
                         raise Div("C04", "user_card", "abc", h.get("MYCARD"), r)
+                    # the same arguments give the same header, whatever was recorded before in this process
+                    cards_now = [(kk, rr) for kk, vv, rr in blk["cards"]]
+                    if r == 0:
+                        first_cards[(i, j)] = cards_now
+                    elif first_cards.get((i, j)) != cards_now:
+                        diff_keys = sorted(set(dict(cards_now).items()) ^ set(dict(first_cards.get((i, j), [])).items()))
+                        raise Div("C12", "header_differs_from_first_recording", "identical cards", [list(x) for x in diff_keys[:6]], r)
                     if check_bytes:
                         want, tie = ref[k]
                         if blk["data"] != want:
@@ -192,7 +202,7 @@ def run_config(beh, seed, workdir, check_bytes=True):
                             hard = diff & ((tie > 1e-7) | (np.abs(got - exp) > 1.5))
                             if np.any(hard):
                                 idx = np.argwhere(hard)[0].tolist()
-                                raise Div("C02", "bytes", {"block": k, "chan_time_pol": idx, "value": str(exp[tuple(idx)])},
+                                raise Div("C02" if r == 0 else "C02|C12", "bytes", {"block": k, "chan_time_pol": idx, "value": str(exp[tuple(idx)])},
                                           {"value": str(got[tuple(idx)]), "n_wrong": int(hard.sum()), "n_total": int(diff.size)}, r)
                     k += 1
             # the caller's dictionary must not change what a later recording writes
@@ -203,4 +213,6 @@ def run_config(beh, seed, workdir, check_bytes=True):
     finally:
         for fn in os.listdir(workdir):
             os.remove(os.path.join(workdir, fn))
+    if return_bytes:
+        return divs, inst, all_bytes
     return divs, inst
